@@ -192,6 +192,12 @@ def _custom_weights(rng, m):
     for e in range(m):
         r = rng.random()
         w[e] = 0.0 if r < 0.03 else (-rng.uniform(0.1, 3) if r < 0.15 else rng.uniform(0.05, 7))
+    if rng.random() < 0.6:
+        # the same mapping filled in another order (border edges first, reversed ids, from a set ...): a dict is keyed by edge id, its insertion
+        # order means nothing
+        keys = list(w)
+        rng.shuffle(keys)
+        w = {k: w[k] for k in keys}
     return w
 
 
